@@ -323,6 +323,11 @@ fn live_case(seed: u64, ev: &Evidence) -> CaseResult {
                 }
             }
             spec.external_psks = ids;
+            // and sometimes the current epoch's resumption PSK, before or after the external ones
+            if rng.below(2) == 0 {
+                spec.resumption_psk_epochs = vec![w.epoch];
+                spec.resumption_psks_first = rng.below(2) == 0;
+            }
         } else {
             let p = w.new_party();
             spec.add.push(p);
@@ -370,17 +375,25 @@ fn live_case(seed: u64, ev: &Evidence) -> CaseResult {
             let nh = s.nh();
             // PSKs in the order in which the commit lists them, with the nonces it announces
             let mut psks: Vec<(rk::PskIdRef, Vec<u8>)> = vec![];
+            let field = |i: usize, f: &str| pm.spans.iter().find(|x| x.name == format!("commit.proposals[{i}].psk.{f}")).map(|sp| commit_public[sp.start..sp.end].to_vec());
+            let opq = |b: Vec<u8>| crate::refmodel::tls::Reader::new(&b).opaque().unwrap_or_default().to_vec();
             for i in 0.. {
-                let (Some(id), Some(nonce)) = (pm.spans.iter().find(|x| x.name == format!("commit.proposals[{i}].psk.psk_id")), pm.spans.iter().find(|x| x.name == format!("commit.proposals[{i}].psk.psk_nonce"))) else {
-                    if pm.spans.iter().any(|x| x.name.starts_with(&format!("commit.proposals[{i}]."))) {
-                        continue;
-                    }
+                if !pm.spans.iter().any(|x| x.name.starts_with(&format!("commit.proposals[{i}]."))) {
                     break;
-                };
-                let id = crate::refmodel::tls::Reader::new(&commit_public[id.start..id.end]).opaque().unwrap_or_default().to_vec();
-                let nonce = crate::refmodel::tls::Reader::new(&commit_public[nonce.start..nonce.end]).opaque().unwrap_or_default().to_vec();
-                let value = psk_value(&id);
-                psks.push((rk::PskIdRef::External { id, nonce }, value));
+                }
+                let Some(nonce) = field(i, "psk_nonce").map(opq) else { continue };
+                if let Some(id) = field(i, "psk_id").map(opq) {
+                    let value = psk_value(&id);
+                    psks.push((rk::PskIdRef::External { id, nonce }, value));
+                } else if let (Some(usage), Some(gid), Some(ep)) = (field(i, "usage"), field(i, "psk_group_id").map(opq), field(i, "psk_epoch")) {
+                    let epoch = u64::from_be_bytes(ep.try_into().unwrap_or([0; 8]));
+                    // only the epoch the commit is sent in is used here: its resumption secret is in `before`
+                    if epoch != info.epoch_before {
+                        return Err(Failure::new(format!("{P}|harness|unexpected_resumption_epoch"), format!("{epoch}")));
+                    }
+                    psks.push((rk::PskIdRef::Resumption { usage: usage[0], group_id: gid, epoch, nonce }, before.resumption_secret.clone()));
+                    ev.class("live_commits_with_resumption_and_external_psks");
+                }
             }
             let psk_secret = if psks.is_empty() { vec![0u8; nh] } else { rk::psk_secret(&s, &psks) };
             if psks.len() >= 2 {
